@@ -27,9 +27,9 @@ Section Spans.
     intros last c lap lc H. unfold uc_trim in H.
     apply bind_ok in H as (en & _ & H). apply bind_ok in H as (lc0 & H0 & H).
     destruct (uc_bad_merge _ _); [discriminate|]. injection H as <-.
-    destruct (is_emit en).
+    destruct (uc_end_emit (is_emit en)).
     - apply bind_ok in H0 as (es' & _ & H0). injection H0 as <-. repeat split.
-    - apply bind_ok in H0 as (st & _ & H0). destruct (is_emit st).
+    - apply bind_ok in H0 as (st & _ & H0). destruct (uc_start_emit (is_emit st)).
       + apply bind_ok in H0 as (es' & _ & H0). injection H0 as <-. repeat split.
       + injection H0 as <-. repeat split.
   Qed.
